@@ -15,7 +15,16 @@
      band_forward_backward_error             (L + dL) y = P b row by row, unit lower triangular L (row r = fhist r), |dL| <= gam(c_r)|L|,
                                              c_r = number of updates of that entry (<= r; not bounded by m1 under pivoting)
      band_forward_noswap_backward_error      no exchanges: L is the unit lower BAND matrix al[j][r-j-1], constant gam(min r m1)
-   au, al, index are the COMPUTED factors: the error of the factorisation itself (decompose) is not part of these blocks.
+     band_dec_trace / band_lu_backward_error / band_lu_noswap_backward_error
+                                             the main loop of decompose: entries of au and the multipliers in al as folds; row-wise
+                                             L U = P B + dB, |dB| <= gam(c_r)|L||U| (Higham Thm 9.3); gam(min r m1) without exchanges
+     band_history_shape                      row r of L: c_r <= r multipliers of the consecutive stages r - c_r .. r-1
+     band_solve_phases                       band_solve = shift_rows ; main loop ; forward phase ; back substitution
+     band_solve_backward_error               the three row-wise statements for the factors band_solve computed itself
+     band_solve_single_backward_error        multiplied out: (B + dB) x = b, |dB| <= (3 gam N + gam N^2)|L||U| (Higham Thm 9.4)
+   Hypothesis throughout: the computed pivots au[k][0] are nonzero (division by zero does not panic in the rounded reals).
+   NOT covered: a bound of |L||U| by |B| (growth factor); binary64 itself (the standard model is assumed, discharged for
+   53-bit round-to-nearest with unbounded exponent in Proofs/RoundFlx.v); band_det.
    ====================================================================================================== *)
 From Coq Require Import List Arith ZArith QArith Qcanon Lia Floats.
 From OV Require Import Base.Panic Base.Arith Base.Flat Model.Vector Model.Matrix Model.Banded Inst.QcInst Inst.FloatInst Proofs.Banded Proofs.BandedLU Proofs.BandedTotal Proofs.BandedComplete.
@@ -615,5 +624,76 @@ Proof.
   split; [exact ux_range|]. split; [exact xsub_ok|]. split; [exact xmul_ok|]. split; [exact xdiv_ok|].
   split; [reflexivity|]. split; [exact exb_size1|]. split; [exact exn_loop|]. split; [exact exn_pivots|].
   intros [|[|k]] Hk; try lia; reflexivity.
+Qed.
+
+(* Higham Theorem 9.4 for the banded solver: band_solve's answer solves ONE nearby system (B + dB) x = b exactly, |dB| <= (3 gam N + gam N^2) |L||U| with L ([Ld], row r = fhist r) and U ([Uc]) the computed factors; N bounds the bandwidth m1+m2+1 and the numbers c_r of row updates (N = m1+m2+1 when no rows were exchanged) *)
+Theorem band_solve_single_backward_error : forall (u : R), (0 <= u < 1)%R ->
+  forall (fadd fsub fmul fdiv : R -> R -> R),
+  (forall x y : R, exists d : R, (Rabs d <= u)%R /\ fsub x y = ((x - y) * (1 + d))%R) ->
+  (forall x y : R, exists d : R, (Rabs d <= u)%R /\ fmul x y = (x * y * (1 + d))%R) ->
+  (forall x y : R, y <> 0%R -> exists d : R, (Rabs d <= u)%R /\ fdiv x y = (x / y * (1 + d))%R) ->
+  forall (B : banded (ARm fadd fsub fmul fdiv)) (b x : list R) (N : nat),
+  wfB B -> length b = bn B -> bm1 B <= bn B -> band_solve B b = Ok x ->
+  exists (au al : matrix (ARm fadd fsub fmul fdiv)) (index : list nat),
+    (exists d : R, decompose_gen (A := ARm fadd fsub fmul fdiv) false B (Model.Banded.compact B)
+                     (mat_new (A := ARm fadd fsub fmul fdiv) (bn B) (bm1 B) 0%R) (repeat 0 (bn B))
+                   = Ok (au, al, index, d)) /\
+    ((forall k, k < bn B -> mat_at (A := ARm fadd fsub fmul fdiv) au (bm1 B + bm2 B + 1) k 0 <> 0%R) ->
+     bm1 B + bm2 B + 1 <= N ->
+     (forall r, r < bn B -> length (fhist (A := ARm fadd fsub fmul fdiv) (bn B) (bm1 B) al index (bn B) r) <= N) ->
+     (INR N * u < 1)%R ->
+     (forall r, r < bn B -> fperm index (bn B) r < bn B) /\
+     (forall r r', fperm index (bn B) r = fperm index (bn B) r' -> r = r') /\
+     exists dB : nat -> nat -> R,
+       (forall r c, r < bn B -> c < bn B ->
+          (Rabs (dB r c) <= (3 * gam u N + gam u N * gam u N)
+                            * Rsum (bn B) (fun k => Rabs (Ld (fhist (A := ARm fadd fsub fmul fdiv) (bn B) (bm1 B) al index (bn B) r) r k)
+                                                    * Rabs (Uc fadd fsub fmul fdiv au (bm1 B + bm2 B + 1) k c)))%R) /\
+       forall r, r < bn B ->
+         Rsum (bn B) (fun c => ((dense_entry B (fperm index (bn B) r) c + dB r c) * nth c x 0)%R)
+         = nth (fperm index (bn B) r) b 0%R).
+Proof. intros u Hu fadd fsub fmul fdiv Hs Hm Hd B b x N. exact (band_solve_single_backward_error_lemma u Hu fadd fsub fmul fdiv Hs Hm Hd B b x N). Qed.
+Check band_solve_single_backward_error : forall (u : R), (0 <= u < 1)%R ->
+  forall (fadd fsub fmul fdiv : R -> R -> R),
+  (forall x y : R, exists d : R, (Rabs d <= u)%R /\ fsub x y = ((x - y) * (1 + d))%R) ->
+  (forall x y : R, exists d : R, (Rabs d <= u)%R /\ fmul x y = (x * y * (1 + d))%R) ->
+  (forall x y : R, y <> 0%R -> exists d : R, (Rabs d <= u)%R /\ fdiv x y = (x / y * (1 + d))%R) ->
+  forall (B : banded (ARm fadd fsub fmul fdiv)) (b x : list R) (N : nat),
+  wfB B -> length b = bn B -> bm1 B <= bn B -> band_solve B b = Ok x ->
+  exists (au al : matrix (ARm fadd fsub fmul fdiv)) (index : list nat),
+    (exists d : R, decompose_gen (A := ARm fadd fsub fmul fdiv) false B (Model.Banded.compact B)
+                     (mat_new (A := ARm fadd fsub fmul fdiv) (bn B) (bm1 B) 0%R) (repeat 0 (bn B))
+                   = Ok (au, al, index, d)) /\
+    ((forall k, k < bn B -> mat_at (A := ARm fadd fsub fmul fdiv) au (bm1 B + bm2 B + 1) k 0 <> 0%R) ->
+     bm1 B + bm2 B + 1 <= N ->
+     (forall r, r < bn B -> length (fhist (A := ARm fadd fsub fmul fdiv) (bn B) (bm1 B) al index (bn B) r) <= N) ->
+     (INR N * u < 1)%R ->
+     (forall r, r < bn B -> fperm index (bn B) r < bn B) /\
+     (forall r r', fperm index (bn B) r = fperm index (bn B) r' -> r = r') /\
+     exists dB : nat -> nat -> R,
+       (forall r c, r < bn B -> c < bn B ->
+          (Rabs (dB r c) <= (3 * gam u N + gam u N * gam u N)
+                            * Rsum (bn B) (fun k => Rabs (Ld (fhist (A := ARm fadd fsub fmul fdiv) (bn B) (bm1 B) al index (bn B) r) r k)
+                                                    * Rabs (Uc fadd fsub fmul fdiv au (bm1 B + bm2 B + 1) k c)))%R) /\
+       forall r, r < bn B ->
+         Rsum (bn B) (fun c => ((dense_entry B (fperm index (bn B) r) c + dB r c) * nth c x 0)%R)
+         = nth (fperm index (bn B) r) b 0%R).
+Print Assumptions band_solve_single_backward_error.
+Example band_solve_single_backward_error_nonvacuous :
+  (0 <= ux < 1)%R /\
+  (forall x y : R, exists d : R, (Rabs d <= ux)%R /\ xsub x y = ((x - y) * (1 + d))%R) /\
+  (forall x y : R, exists d : R, (Rabs d <= ux)%R /\ xmul x y = (x * y * (1 + d))%R) /\
+  (forall x y : R, y <> 0%R -> exists d : R, (Rabs d <= ux)%R /\ xdiv x y = (x / y * (1 + d))%R) /\
+  wfB exs_B /\ length exs_b = bn exs_B /\ bm1 exs_B <= bn exs_B /\
+  (exists x, band_solve exs_B exs_b = Ok x) /\
+  decompose_gen false exs_B (Model.Banded.compact exs_B) (@mat_new AFlx 2 1 0%R) (repeat 0 2) = Ok (exs_au, exs_al, exs_index, (- (1))%R) /\
+  (forall k, k < 2 -> mat_at (A := AFlx) exs_au 3 k 0 <> 0%R) /\
+  bm1 exs_B + bm2 exs_B + 1 <= 3 /\
+  (forall r, r < 2 -> length (fhist (A := AFlx) 2 1 exs_al exs_index 2 r) <= 3) /\
+  (INR 3 * ux < 1)%R.
+Proof.
+  split; [exact ux_range|]. split; [exact xsub_ok|]. split; [exact xmul_ok|]. split; [exact xdiv_ok|].
+  split; [exact exs_wf|]. split; [reflexivity|]. split; [cbn; lia|]. split; [exact exs_solve|].
+  split; [exact exs_decompose|]. split; [exact exs_pivots|]. split; [cbn; lia|]. split; [exact exs_hist_le3|exact exs_size3].
 Qed.
 
